@@ -116,10 +116,11 @@ static struct upipe *upipe_disblo_alloc(struct upipe_mgr *mgr,
  */
 static void upipe_disblo_free(struct upipe *upipe)
 {
+    /* may log about the buffers still held */
+    upipe_disblo_clean_input(upipe);
     upipe_throw_dead(upipe);
 
     upipe_disblo_clean_output(upipe);
-    upipe_disblo_clean_input(upipe);
     upipe_disblo_clean_upump(upipe);
     upipe_disblo_clean_upump_mgr(upipe);
     upipe_disblo_clean_urefcount(upipe);
